@@ -418,6 +418,18 @@ class Ctx:
             for a in ax:
                 if a not in self.trusted:
                     self.trusted.append(a)
+        if self.tier == 'thorough' and ok_all and os.environ.get('VERIF_NO_COQCHK') != '1':
+            # independent re-check; its context summary lists the axioms of every library LOADED (not only those the theorems
+            # use): the three above plus Classical_Prop.classic, which Reals loads.  Anything else fails.
+            rc, out = _run(['coqchk', '-silent', '-o', '-Q', THEORIES, 'BF', 'BF.Props.' + name], cwd=COQ, timeout=1800)
+            m = re.search(r'\* Axioms:(.*?)\n\s*\n', out, flags=re.S)
+            loaded = [x.strip() for x in (m.group(1).split('\n') if m else []) if x.strip() and x.strip() != '<none>']
+            allowed = set('Coq.Reals.' + x if x.startswith('Classical') else 'Coq.Logic.' + x for x in self.REAL_AXIOMS)
+            allowed.add('Coq.Logic.Classical_Prop.classic')
+            extra = [x for x in loaded if x not in allowed]
+            self.obligation('coqchk BF.Props.%s' % name, rc == 0 and m is not None and not extra,
+                            'axioms of the loaded libraries: ' + ', '.join(loaded) if rc == 0 else ' '.join(out.split())[-400:])
+            self.extra.setdefault('coqchk_loaded_axioms', {})[name] = loaded
         return ok_all
 
     # ---- thorough tier: the same check under other execution modes of the numba kernels ---------
